@@ -101,6 +101,30 @@ def forIn [Monad m] (l : List α) (init : σ) (f : α → σ → m σ) : m σ :=
   | [] => pure init
   | a :: l => f a init >>= fun s => forIn l s f
 
+/-- `loop { body }` (left only through `return`), in a function without context: iterate `body` on the loop state.
+The function takes its fuel as an explicit parameter: when the fuel runs out the function ends with
+`.error (.panic site)` — the result says "not finished within `fuel` iterations", nothing is assumed about
+termination (the agreement theorems prove how much fuel suffices). -/
+def loop (site : Str) : Nat → σ → (σ → Flow (Res β) σ) → Flow (Res β) α
+  | 0, _, _ => .ret (.error (.panic site))
+  | n + 1, s, f => match f s with
+    | .val s' => loop site n s' f
+    | .ret r => .ret r
+
+/-- the explicit stack of `NodeIter` / `OperatorIterMut` (src/tree/iter.rs): a `Vec` (top = last element) of slice
+iterators, each the list of the children still to be visited -/
+structure IterStack where
+  stack : List (List Node)
+/-- `slice::Iter::next` / `IterMut::next`: the first remaining item and the rest -/
+def iter_next (it : List α) : Option α × List α :=
+  match it with
+  | [] => (none, [])
+  | a :: rest => (some a, rest)
+/-- writing through `v.last_mut()`: the vector with its last element replaced -/
+def set_last (v : List α) (x : α) : List α := v.dropLast ++ [x]
+/-- `Vec::pop`: the vector without its last element -/
+def pop_back (v : List α) : List α := v.dropLast
+
 /-- termination measure of the recursive functions over `Node` (a proved fact, used by the generated
 `decreasing_by`) -/
 theorem node_lt {child self : Node} (h : child ∈ self.children) : sizeOf child < sizeOf self := by
@@ -108,6 +132,29 @@ theorem node_lt {child self : Node} (h : child ∈ self.children) : sizeOf child
   have := List.sizeOf_lt_of_mem h
   simp at *
   omega
+
+/-- `Function::new(closure)` (src/function/mod.rs boxes the closure): the function itself -/
+def Function_new (f : Value → Res Value) : UserFn := f
+
+/-- `a..b` and `a..=b` on `usize` -/
+structure Range where
+  lo : Nat
+  hi : Nat
+structure RangeInclusive where
+  lo : Nat
+  hi : Nat
+/-- `RangeInclusive::contains` -/
+def RangeInclusive.contains (r : RangeInclusive) (x : Nat) : Bool := r.lo ≤ x && x ≤ r.hi
+/-- `usize::MAX` (64-bit platform) -/
+def usize_MAX : Nat := 2 ^ 64 - 1
+/-- the two error variants whose Rust field is a `RangeInclusive<usize>`: the Model stores the two bounds -/
+def Err_wrongFunctionArgumentAmount (expected : RangeInclusive) (actual : Nat) : Err :=
+  .wrongFunctionArgumentAmount expected.lo expected.hi actual
+def Err_expectedRangedLengthTuple (expected_length : RangeInclusive) (actual : Value) : Err :=
+  .expectedRangedLengthTuple expected_length.lo expected_length.hi actual
+
+/-- `Vec::swap_remove(i)` used for its result only: the element at `i` (panics when out of bounds) -/
+def swap_remove [MonadFlow (Res β) m] (site : Str) (a : List α) (i : Nat) : m α := index site a i
 
 /-! ### identity conversions -/
 
@@ -159,17 +206,15 @@ class Get (κ : Type) (c : Type) (v : outParam Type) where
 export Get (get)
 instance : Get Nat (List α) α := ⟨fun a i => a[i]?⟩
 instance : Get Str (List (Str × β)) β := ⟨fun m k => alookup k m⟩
+/-- `str::get(a..b)`: the substring between two byte offsets, `None` unless both are character boundaries in range -/
+instance : Get Range Str Str := ⟨fun s r => sliceBytes s r.lo r.hi⟩
 /-- `HashMap::insert` (the returned previous value is not used by the translated code) -/
 def insert (m : List (Str × β)) (k : Str) (v : β) : List (Str × β) := ainsert k v m
 /-- `HashMap::clear`, `Vec::clear` -/
 def clear (_ : List α) : List α := []
 /-- calling a stored function: `Function::call` (src/function/mod.rs `(self.function)(argument)`) is the
-application of the user function; the builtin `Function`s are the Model's `Builtin.call` -/
-class FnCall (φ : Type) where
-  fn_call : φ → Value → Res Value
-export FnCall (fn_call)
-instance : FnCall Builtin := ⟨Builtin.call⟩
-instance : FnCall UserFn := ⟨fun f a => f a⟩
+application of the function -/
+def fn_call (f : UserFn) (a : Value) : Res Value := f a
 /-- `Option::unwrap_or` -/
 def unwrap_or (o : Option α) (d : α) : α :=
   match o with
@@ -187,6 +232,42 @@ instance : Map Res := ⟨fun r f => Except.map f r⟩
 instance : Map Option := ⟨fun o f => Option.map f o⟩
 /-- `Iterator::map` -/
 instance : Map List := ⟨fun l f => List.map f l⟩
+
+/-- `Option::ok_or` -/
+def ok_or (o : Option α) (e : ε) : Except ε α :=
+  match o with
+  | some a => .ok a
+  | none => .error e
+/-- `contains`: `[T]::contains` on values (derived `PartialEq`), `RangeInclusive::contains` -/
+class Contains (c : Type) (a : outParam Type) where
+  contains : c → a → Bool
+export Contains (contains)
+instance : Contains (List Value) Value := ⟨tupleContains⟩
+instance : Contains RangeInclusive Nat := ⟨RangeInclusive.contains⟩
+/-- `str::to_lowercase`, `str::to_uppercase`, `str::trim`: the Model's functions (modelled alphabet, see Model/Builtin.lean) -/
+def to_lowercase (s : Str) : Str := strToLower s
+def to_uppercase (s : Str) : Str := strToUpper s
+def trim (s : Str) : Str := trimStr s
+/-- `ToString::to_string` (`Display`): identity on strings; the Model's `Display` images otherwise -/
+class ToString (α : Type) where
+  to_string : α → Str
+export ToString (to_string)
+instance : ToString Str := ⟨fun s => s⟩
+instance : ToString Float := ⟨F64.display⟩
+instance : ToString Int64 := ⟨F64.intDisplay⟩
+instance : ToString Bool := ⟨fun b => if b then cl!"true" else cl!"false"⟩
+instance : ToString Value := ⟨Value.display⟩
+/-- `min` / `max`: `Ord::min` / `Ord::max` on the int type; on the float type the instance is the translated
+`EvalexprFloat::min` / `max` (registered by Generated/FnNumeric.lean) -/
+class Min (α : Type) where
+  min : α → α → α
+export Min (min)
+class Max (α : Type) where
+  max : α → α → α
+export Max (max)
+/-- `Ord::min(a, b)`: `b` if `a > b`, else `a`;  `Ord::max(a, b)`: `a` if `a > b`, else `b` -/
+instance : Min Int64 := ⟨fun a b => if a.toInt > b.toInt then b else a⟩
+instance : Max Int64 := ⟨fun a b => if a.toInt > b.toInt then a else b⟩
 
 /-- `Vec::new()` -/
 def Vec.new : List α := []
@@ -227,6 +308,11 @@ instance : Cast Int64 Float := ⟨Int64.toFloat⟩
 instance : Cast Float Int64 := ⟨Float.toInt64⟩
 /-- `i64 as u64`: two's complement reinterpretation -/
 instance : Cast Int64 UInt64 := ⟨Int64.toUInt64⟩
+/-- `i64 as u32`: the low 32 bits -/
+instance : Cast Int64 UInt32 := ⟨fun x => x.toUInt64.toUInt32⟩
+/-- `i64::wrapping_shl(n)` / `wrapping_shr(n)`: shift by `n mod 64` (arithmetic shift to the right) -/
+def i64_wrapping_shl (a : Int64) (n : UInt32) : Int64 := ⟨⟨a.toBitVec <<< (n.toNat % 64)⟩⟩
+def i64_wrapping_shr (a : Int64) (n : UInt32) : Int64 := ⟨⟨a.toBitVec.sshiftRight (n.toNat % 64)⟩⟩
 
 /-- `TryFrom`/`TryInto` between integer types: the error value carries no information -/
 class TryInto (α β : Type) where
@@ -255,6 +341,8 @@ class PEq (α : Type) where
 export PEq (eq)
 instance : PEq Nat := ⟨fun a b => a == b⟩
 instance : PEq Bool := ⟨fun a b => a == b⟩
+/-- `str == str` -/
+instance : PEq Str := ⟨fun a b => a == b⟩
 /-- the derived `PartialEq for Value` (not a function body: mapped to the Model) -/
 instance : PEq Value := ⟨Value.beq⟩
 instance : PEq ValueType := ⟨fun a b => a == b⟩
